@@ -862,6 +862,11 @@ func streamCont(o *Out, r *rand.Rand, n int, thorough bool) {
 		{"module mm {\ns = make(S)\n}\nm2 = mm\nm2.s.A = 5\n[mm.s.A, m2.s.A]", "[]iface[int64:0 int64:5]"},
 		{"module mm {\ns = make(S)\ns.A = 1\n}\nm2 = mm\nmm.s.A = 7\n[mm.s.A, m2.s.A]", "[]iface[int64:7 int64:1]"},
 		{"module mm {\nt = make([]int64, 1)\n}\nm2 = mm\nm2.t[0] = 5\nmm.t[0]", "int64:5"},
+		// the two-value read binds a value: later stores into the slot do not show in it
+		{"t = make([]int64, 2)\nv, ok = t[0]\nt[0] = 5\n[v, ok]", "[]iface[int64:0 bool:true]"},
+		{"t = make([]string, 1)\nt[0] = \"a\"\nv, ok = t[0]\nt[0] = \"z\"\nv", "string:" + hexOf("a")},
+		{"x = make(S)\nx.C = [1, 2]\nv, ok = x.C[0]\nx.C[0] = 9\n[v, ok]", "[]iface[int64:1 bool:true]"},
+		{"m = {}\nv, ok = m[\"missing\"]\nw, ok2 = m[\"other\"]\nv = 5\n[w, ok, ok2]", "[]iface[nil bool:false bool:false]"},
 		{"x = make(S)\ny = x\ny.A = 4\n[x.A, y.A]", "SKIP"},
 		{"x = make(S)\nx.Nope = 1", "ERROR"}, {"x = make(S)\nx.Nope", "ERROR"}, {"x = make(S)\nx.A = 3\nx.A", "int64:3"},
 		{"x = make(S)\nx.C = [1, 2]\nx.C[1]", "int64:2"}, {"x = make(S)\nx.D = {\"a\": 1}\nx.D.a", "int64:1"}, {"x = make(S)\nx.G = [1]\nx.G", "[]iface[int64:1]"},
